@@ -383,7 +383,7 @@ def _gen_step(rng, kind, vals):
         if kind == "argred":
             if A(i).dtype.kind == "b":
                 return None
-            ax = rng.choice([None] + list(range(nd))) if nd == 1 else rng.randrange(nd)
+            ax = rng.choice([None] + list(range(nd))) if nd == 1 else rng.randrange(-nd, nd)
             return dict(op=rng.choice(ARGRED), args=[i], kw=dict(axis=ax, keepdims=rng.random() < 0.3))
         axes = rng.choice([None] + list(range(nd)) + [list(c) for c in itertools.combinations(range(nd), 2)] + [-1])
         op = rng.choice(REDUCE) if kind == "reduce" else "count_nonzero"
@@ -401,7 +401,7 @@ def _gen_step(rng, kind, vals):
         i = _pick(rng, vals, lambda a: a.ndim >= 1 and a.dtype.kind in "iuf" and a.size > 0)
         if i is None:
             return None
-        ax = rng.randrange(A(i).ndim)
+        ax = rng.randrange(-A(i).ndim, A(i).ndim)
         if kind == "cumprod":
             if A(i).shape[ax] > 8:
                 return None
@@ -452,19 +452,19 @@ def _gen_step(rng, kind, vals):
         if i is None:
             return None
         nd = A(i).ndim
-        return dict(op="flip", args=[i], kw=dict(axis=rng.choice([None] + list(range(nd)) + [list(range(nd))])))
+        return dict(op="flip", args=[i], kw=dict(axis=rng.choice([None] + list(range(-nd, nd)) + [list(range(nd))])))
     if kind == "roll":
         i = _pick(rng, vals, lambda a: a.ndim >= 1 and a.size > 0)
         if i is None:
             return None
         nd = A(i).ndim
-        ax = rng.choice([None] + list(range(nd)))
+        ax = rng.choice([None] + list(range(-nd, nd)))
         return dict(op="roll", args=[i], kw=dict(shift=rng.randint(-9, 9), axis=ax))
     if kind == "repeat":
         i = _pick(rng, vals, lambda a: a.ndim >= 1)
         if i is None:
             return None
-        return dict(op="repeat", args=[i], kw=dict(repeats=rng.randint(1, 3), axis=rng.randrange(A(i).ndim)))
+        return dict(op="repeat", args=[i], kw=dict(repeats=rng.randint(1, 3), axis=rng.randrange(-A(i).ndim, A(i).ndim)))
     if kind == "tile":
         i = _pick(rng, vals, lambda a: 1 <= a.ndim <= 2 and a.size <= 20)
         if i is None:
